@@ -36,7 +36,7 @@ COMPONENTS = {'real': ['bespokeasm (whole package) through the CLI entry point',
               'model': ['props/c08.py:CondModel (reference model of conditional selection)']}
 
 PDIR = '/sim/p'
-SYMS = ['SA', 'SB', 'fast', 'idx', 'S_E', 'legacy']     # lower-case names too: nothing in the statement depends on case
+SYMS = ['SA', 'SB', 'fast', 'idx', 'S_E', 'legacy', 'SA_2', 'fast2']     # lower-case names too: nothing in the statement depends on case
 CONSTS = ['KA', 'KB', 'KC']
 LABELS = ['la', 'lb', 'lc']
 ZONES = ['Z1', 'Z2', 'Z3']
@@ -96,9 +96,20 @@ class CondModel:
             raise KeyError(w)
         return re.sub(f'({self.LIT})|([A-Za-z_]\\w*)', repl, str(text))
 
+    ZERO_DIV = object()
+
     def num(self, text):
         import re
         t = self.expand(text)
+        m = re.fullmatch(r'(\d+) / (\d+)', t.strip())
+        if m:
+            # an exact quotient only (what an inexact one compares like is not something the statement fixes)
+            a, b = int(m.group(1)), int(m.group(2))
+            if b == 0:
+                return self.ZERO_DIV
+            if a % b:
+                raise KeyError(t)
+            return a // b
         # sums/differences, optionally followed by ONE shift or mask operator (same precedence in Python and here)
         if not re.fullmatch(r'\d+( ?[+-] ?\d+)*( ?(>>|<<|&|\|) ?\d+)?', t.strip()):
             raise KeyError(t)
@@ -112,18 +123,22 @@ class CondModel:
             return f'{t[0]} {cond["bop"]} {t[1]}', cond['op'], t[2]
         if cond['form'] == 'cmp':
             return t[0], cond['op'], t[1]
+        if cond['form'] == 'div':
+            return f'{t[0]} / {t[1]}', cond['op'], t[2]
         if cond['form'] == 'bare':
             return t[0], '!=', '0'
         if cond['form'] == 'bare_minus':
             return f'{t[0]} - {t[1]}', '!=', '0'
         return f'{t[0]} + {t[1]}', cond['op'], t[2]
 
-    def cond_ok(self, cond):
-        """every symbol used expands to a number right now"""
+    def cond_ok(self, cond, unevaluated=False):
+        """every symbol used expands to a number right now; a division by zero is acceptable only in a condition
+        that is not going to be evaluated (the guard idiom `#if R == 0 ... #elif 100 / R > 9`)"""
         try:
             a, _, b = self.sides(cond)
-            self.num(a)
-            self.num(b)
+            va, vb = self.num(a), self.num(b)
+            if (va is self.ZERO_DIV or vb is self.ZERO_DIV) and not unevaluated:
+                return False
             return True
         except (KeyError, ValueError, SyntaxError):
             return False
@@ -142,6 +157,8 @@ class CondModel:
             return f'{t[0]} {cond["bop"]} {t[1]} {cond["op"]} {t[2]}'
         if cond['form'] == 'cmp':
             return f'{t[0]} {cond["op"]} {t[1]}'
+        if cond['form'] == 'div':
+            return f'{t[0]} / {t[1]} {cond["op"]} {t[2]}'
         if cond['form'] == 'bare':
             return t[0]
         if cond['form'] == 'bare_minus':
@@ -188,7 +205,8 @@ class CondModel:
                 self.probes['chain_nested_in_unselected'] = self.probes.get('chain_nested_in_unselected', 0) + 1
             return 'keep', [('#ifndef ' if op['neg'] else '#ifdef ') + op['name']]
         if k == 'elif':
-            if not self.frames or self.frames[-1][4] or not self.cond_ok(op['cond']):
+            if not self.frames or self.frames[-1][4] or not self.cond_ok(
+                    op['cond'], unevaluated=self.frames[-1][1] or not self.frames[-1][0]):
                 return None
             if self.frames[-1][3] == 'ifdef':
                 self.probes['elif_in_ifdef_chain'] = self.probes.get('elif_in_ifdef_chain', 0) + 1
@@ -319,6 +337,14 @@ class CondModel:
             else:
                 self.probes['mute_toggled_in_unselected'] = self.probes.get('mute_toggled_in_unselected', 0) + 1
             return 'keep', [op.get('word', '#unmute')]
+        if k == 'raw_ifdef':
+            # `#ifdef <defined name><byte that is no UTF-8><tail>`: a file in a legacy code page. Refusing the file is
+            # fine; accepting it and testing the defined prefix instead of the word that was written is not
+            if not act or self.mute or self.zone != 'GLOBAL' or op['name'] not in self.symbols:
+                return None
+            self.soft = {'addr': self.cursor['GLOBAL'], 'forbidden': 0xD6}
+            return 'soft', [f'#ifdef {op["name"]}' + chr(0xDC00 + op['byte']) + op['tail'], '  .byte $D6', '#else',
+                            '  .byte $D7', '#endif']
         if k == 'illformed':
             kind = op['kind']
             if kind in ('stray_else', 'stray_elif', 'stray_endif'):
@@ -367,7 +393,9 @@ def world_for(case, lines):
         tails = ['', '', ' ; c', ';c', '\t;endif', ';#else']
         lines = [ln + tails[(g * 7 + j * (1 + g % 5)) % len(tails)] if ';' not in ln else ln for j, ln in enumerate(lines)]
     return {'files': {f'{PDIR}/isa.yaml': gen.isa_text(isa_for(case['pre_symbols']), 'yaml'),
-                      f'{PDIR}/main.asm': ('\r\n' if case.get('crlf') else '\n').join(lines) + ('\r\n' if case.get('crlf') else '\n')},
+                      # stored as UTF-8; a lone surrogate stands for one raw byte (a file saved in a legacy code page)
+                      f'{PDIR}/main.asm': (('\r\n' if case.get('crlf') else '\n').join(lines) + (
+                          '\r\n' if case.get('crlf') else '\n')).encode('utf-8', 'surrogateescape').decode('latin-1')},
             'argv': argv, 'cwd': PDIR, 'env': {'HOME': '/sim/home'}, 'step_budget': 3_000_000}
 
 
@@ -391,6 +419,16 @@ def run_history(case, stats=None, only_last=False):
             continue
         mode, new = res
         model.snapshot()
+        if mode == 'soft':
+            closing, _ = model.closing()
+            r = child.run_world(world_for(case, lines + new + closing))
+            if stats is not None:
+                stats['runs'] += 1
+                stats['steps'] += r['steps']
+            if r['kind'] == 'exit' and r['exit'] == 0 and (image_map(r) or {}).get(model.soft['addr']) == model.soft['forbidden']:
+                viol.append('CC-undecodable-name-tested-as-another-symbol')
+                obs['steps'].append({'i': i, 'op': op, 'probe_lines': [x.encode('ascii', 'backslashreplace').decode() for x in new]})
+            continue
         if mode == 'probe':
             closing, _ = model.closing()
             # the offending line goes where the history stands; the closing lines would never be reached
@@ -446,7 +484,7 @@ def check_xproc(case):
     lines = []
     for op in case['ops']:
         res = model.apply(copy.deepcopy(op))
-        if res is None or res[0] == 'probe':
+        if res is None or res[0] in ('probe', 'soft'):
             continue
         lines += res[1]
     closing, mem = model.closing()
@@ -556,6 +594,15 @@ def make_machine(stats, box):
             mode, new = res
             self.model.snapshot()
             closing, mem = self.model.closing()
+            if mode == 'soft':
+                r = child.run_world(world_for(self.case, self.lines + new + closing))
+                stats['runs'] += 1
+                stats['evaluations'] += 1
+                stats['steps'] += r['steps']
+                soft = self.model.soft
+                if r['kind'] == 'exit' and r['exit'] == 0 and (image_map(r) or {}).get(soft['addr']) == soft['forbidden']:
+                    raise Violation(['CC-undecodable-name-tested-as-another-symbol'], copy.deepcopy(self.case), {})
+                return
             if mode == 'probe':
                 r = child.run_world(world_for(self.case, self.lines + new + closing))
                 stats['runs'] += 1
@@ -660,6 +707,39 @@ def make_machine(stats, box):
             self.marker_()
             self.do({'op': 'endif'})
             self.do({'op': 'sym_use', 'name': a})
+
+        @rule(name=sym, byte=st.sampled_from([0xD6, 0xF6, 0xDF, 0xB5, 0xE9]), tail=st.sampled_from(['SSE', '_XL', '', 'x1']))
+        def legacy_code_page_name(self, name, byte, tail):
+            self.do({'op': 'raw_ifdef', 'name': name, 'byte': byte, 'tail': tail})
+
+        @rule(r=sym, v=st.sampled_from([0, 0, 1, 2, 5, 20, 50]), wrap=st.sampled_from(['', '', 'ifdef', 'if0']))
+        def idiom_division_guard(self, r, v, wrap):
+            """#if R == 0 / X / #elif 100 / R > 9 / Y / #else / Z / #endif - the #elif must not be evaluated when R is 0
+            (nor when the whole chain sits in unselected code)"""
+            m = self.model
+            if m is None or len(m.frames) >= 2:
+                return
+            if r not in m.symbols:
+                self.do({'op': 'define', 'name': r, 'value': v})
+            if wrap == 'ifdef':
+                free = [x for x in SYMS if x not in m.symbols]
+                if not free:
+                    return
+                self.do({'op': 'ifdef', 'name': free[0], 'neg': False})
+            elif wrap == 'if0':
+                self.do({'op': 'if', 'cond': {'form': 'cmp', 'terms': [0, 1], 'op': '=='}})
+            n = len(self.case['ops'])
+            self.do({'op': 'if', 'cond': {'form': 'cmp', 'terms': [r, 0], 'op': '=='}})
+            if len(self.case['ops']) > n:
+                self.marker_()
+                self.do({'op': 'elif', 'cond': {'form': 'div', 'terms': [100, r, 9], 'op': '>'}})
+                self.marker_()
+                self.do({'op': 'else'})
+                self.marker_()
+                self.do({'op': 'endif'})
+            if wrap:
+                self.do({'op': 'endif'})
+            self.marker_()
 
         @rule(a=sym, b=sym, va=st.integers(0, 1), vb=st.integers(0, 1))
         def idiom_feature_flags(self, a, b, va, vb):
